@@ -264,7 +264,7 @@ var $newType = (size, kind, string, named, pkg, exported, constructor) => {
                 });
                 typ.keyFor = x => {
                     var val = x.$val;
-                    return $mapArray(fields, f => {
+                    return $mapArray(fields.filter(f => f.name !== "_"), f => {
                         return String(f.typ.keyFor(val[f.prop])).replace(/\\/g, "\\\\").replace(/\$/g, "\\$");
                     }).join("$");
                 };
